@@ -2,7 +2,9 @@ package instr
 
 import (
 	"os"
+	"os/exec"
 	"path/filepath"
+	"runtime"
 	"strings"
 	"testing"
 )
@@ -117,6 +119,21 @@ func f(n string) {
 	if len(names) != 2 || names[0] != "X_DEVICE" || names[1] != "X_FLAG" || len(opaque) != 1 {
 		t.Fatal(names, opaque)
 	}
+	os.WriteFile(filepath.Join(dir, "b.go"), []byte(`package x
+
+import "os"
+
+func g() (v string) {
+	for _, n := range []string{"LC_ALL", "LANG", "not a name"} {
+		v = os.Getenv(n)
+	}
+	return
+}
+`), 0644)
+	names, _ = EnvNames(dir)
+	if strings.Join(names, ",") != "LANG,LC_ALL,X_DEVICE,X_FLAG" {
+		t.Fatal(names)
+	}
 }
 
 func TestLibraryCoversSubPackagesButNotCommands(t *testing.T) {
@@ -144,5 +161,46 @@ func TestLibraryCoversSubPackagesButNotCommands(t *testing.T) {
 	}
 	if len(rep.SyncFiles) != 1 || rep.SyncFiles[0] != "internal/idx/idx.go" {
 		t.Fatal(rep.SyncFiles)
+	}
+}
+
+func TestClockSeamCompilesAndJumps(t *testing.T) {
+	goroot := runtime.GOROOT()
+	if out, err := exec.Command("go", "env", "GOROOT").Output(); err == nil && len(out) > 1 {
+		goroot = strings.TrimSpace(string(out))
+	}
+	dir := t.TempDir()
+	w := func(rel, src string) {
+		os.MkdirAll(filepath.Dir(filepath.Join(dir, rel)), 0755)
+		os.WriteFile(filepath.Join(dir, rel), []byte(src), 0644)
+	}
+	w("go.mod", "module example.com/x\n\ngo 1.11\n")
+	w("a.go", "package x\n\nimport (\n\t\"time\"\n)\n\nvar start = time.Now()\n\nfunc Idle() time.Duration { return time.Since(start) }\n\nfunc D() time.Duration { return 3 * time.Second }\n\nvar _ = time.RFC3339\nvar _ time.Month = time.January\nvar T *time.Timer\n")
+	w("internal/y/y.go", "package y\n\nimport t \"time\"\n\nfunc Later(x t.Time) bool { return t.Now().After(x) }\n")
+	w("cmd/tool/main.go", "package main\n\nimport \"time\"\n\nfunc main() { println(time.Now().Unix()) }\n")
+	w("x_test.go", "package x\n\nimport (\n\t\"testing\"\n\n\t\"example.com/x/zzclock\"\n)\n\nfunc TestJump(t *testing.T) {\n\ta := Idle()\n\tzzclock.Jump(3600 * 1000)\n\tif b := Idle(); b-a < 3599*1e9 || b-a > 3700*1e9 {\n\t\tt.Fatal(a, b)\n\t}\n}\n")
+	rep, err := Clock(dir, goroot)
+	if err != nil {
+		t.Fatal(err)
+	}
+	if strings.Join(rep.Rewritten, ",") != "a.go,internal/y/y.go" {
+		t.Fatal(rep.Rewritten)
+	}
+	cmd := exec.Command("go", "test", "./...")
+	cmd.Dir = dir
+	cmd.Env = append(os.Environ(), "GOFLAGS=-mod=mod", "GOPROXY=off", "GOSUMDB=off", "GOTOOLCHAIN=local")
+	if out, err := cmd.CombinedOutput(); err != nil {
+		t.Fatalf("%v\n%s", err, out)
+	}
+	main, _ := os.ReadFile(filepath.Join(dir, "cmd/tool/main.go"))
+	if strings.Contains(string(main), "simtime") {
+		t.Fatal("command rewritten")
+	}
+	if err := rep.Undo(); err != nil {
+		t.Fatal(err)
+	}
+	a, _ := os.ReadFile(filepath.Join(dir, "a.go"))
+	if strings.Contains(string(a), "simtime") {
+		t.Fatal("undo failed")
 	}
 }
